@@ -328,3 +328,57 @@ def rule_defsrc_identity(prog):
     if not okc:
         res.viol("closure-builds-keycode", f.loc, "the closure given to map() no longer builds Action::KeyCode on a single unconditional path")
     return res
+
+
+def rule_btn_tables(prog):
+    """R-BTN-TABLES (C11): the two tables that translate mouse-button key codes agree.
+
+    A mouse button that passes through kanata unchanged takes this way on Linux: OS code (BTN_SIDE ...) -> `osc_to_btn`
+    (src/kanata/output_logic.rs) -> `Btn` -> `KbdOut::click_btn` -> `OsCode::from(Btn)` (parser/src/keys/linux.rs) -> OS
+    code. Each table is a plain `match`; the property "comes out as the same code that went in" needs the second to be
+    the inverse of the first on every button. The simulated output never converts a Btn back, so no test sees a swap."""
+    from kq.analysis import discr_switches
+    res = RuleResult("R-BTN-TABLES", "OsCode -> Btn (osc_to_btn) and Btn -> OsCode (From<Btn>) are inverse tables", floor=5)
+    BTN = "kanata_parser::custom_action::Btn"
+    OSC = "kanata_parser::keys::OsCode"
+
+    def table(f, scrut, out):
+        m = {}
+        for sw in discr_switches(prog, f):
+            if sw.adt != scrut:
+                continue
+            for v, b in sw.arms.items():
+                # the value the arm yields: the first aggregate of the output enum in the arm's straight-line code
+                cur, hops = b, 0
+                while cur is not None and hops < 4:
+                    got = [st["rv"].get("v") for st in f.stmts(cur) if st["k"] == "assign" and st["rv"]["k"] == "agg" and st["rv"].get("adt") == out]
+                    if got:
+                        m[v] = got[0]
+                        break
+                    ss = f.succs(cur)
+                    cur = ss[0] if len(ss) == 1 else None
+                    hops += 1
+        return m
+    to_osc = [f for f in prog.fns.values() if f.norm.startswith("<%s as core::convert::From<%s>>::from" % (OSC, BTN))]
+    to_btn = [f for f in prog.fns.values() if f.norm.endswith("output_logic::osc_to_btn")]
+    if len(to_osc) != 1 or len(to_btn) != 1:
+        # From<Btn> for OsCode exists on Linux (and in the interception build); elsewhere the OS API takes the Btn itself
+        res.viol("anchor", "parser/src/keys/linux.rs", "From<Btn> for OsCode (%d) / osc_to_btn (%d) not found" % (len(to_osc), len(to_btn)))
+        return res
+    fo, fb = to_osc[0], to_btn[0]
+    res.fn(fo)
+    res.fn(fb)
+    m_osc = table(fo, BTN, OSC)
+    m_btn = table(fb, OSC, BTN)
+    btns = prog.enum_variants(BTN)
+    for b in btns.values():
+        o = m_osc.get(b)
+        back = m_btn.get(o) if o else None
+        ok = o is not None and back == b
+        res.inst("Btn::%s" % b, where=fo.loc, to_oscode=o, and_back=back, ok=ok)
+        res.oblige(ok)
+        if not ok:
+            res.viol("Btn::%s" % b, fo.loc,
+                     "OsCode::from(Btn::%s) is %s, but osc_to_btn(%s) is %s: a mouse button that kanata passes through (or `%s` mapped "
+                     "to itself) goes in as one OS code and is clicked as another" % (b, o, o, back, b))
+    return res
